@@ -485,12 +485,6 @@ def run(ck):
             if not a or not a["setup_ok"] or len(a["results"]) != 2 or r is None:
                 continue
             on, ref = a["results"]
-            opt_plan = on.get("optimized") or ""
-            if ("(join right_outer" in opt_plan or "(join full_outer" in opt_plan) and ref["class"] == "ok":
-                if on["class"] == "err" and "operator panicked" in on.get("msg", ""):
-                    ck.report("plan:nl-outer-join-left-in-optimized-plan", "the optimized plan of `%s` keeps a nested-loop right/full outer join, which the executor cannot run (todo!(): the statement fails)" % c["sql"],
-                              replay={"case": c, "on": on, "reference": ref})
-                    continue
             if on["class"] == "ok" and ref["class"] == "ok" and rows_key(on["rows"]) != rows_key(ref["rows"]):
                 ck.report(r["sig"], "`%s` (optimized; plan %s) returns %s, the equivalent `%s` run unoptimized returns %s" % (
                     c["sql"], on.get("optimized"), rows_key(on["rows"]), c["reference_sql"], rows_key(ref["rows"])),
@@ -529,12 +523,9 @@ def run(ck):
                 return ("fail",) if x["class"] != "ok" else c01_gen.result_key(c, x["rows"])
 
             def has_nl_outer(plan):
-                return ("(join right_outer" in (plan or "")) or ("(join full_outer" in (plan or ""))
-            # nested-loop right/full outer joins are `todo!()` in the executor: a plan containing one
-            # fails with `operator panicked: not yet implemented` (since fix 4225762; before, the
-            # panic was swallowed and the statement returned no rows)
-            off_ok = off["class"] == "ok" and not has_nl_outer(off.get("bound"))
-            on_nl = has_nl_outer(on.get("optimized")) and on["class"] == "err" and "operator panicked" in on.get("msg", "")
+                return False    # nested-loop right/full outer joins run since fix 7d07810 (were todo!())
+            off_ok = off["class"] == "ok"
+            on_nl = False
             if not off_ok:
                 stats["off_not_runnable"] += 1
             # reference: the unoptimized answer; where the bound plan cannot run, the optimizer
